@@ -392,8 +392,9 @@ def run_check(prop, tier, root, workers=None, worlds=None, wall=None, world_list
         log("  minimised: %s" % info)
         exit_code = 1
 
-    if agg["harness_errors"] and exit_code == 0:
-        exit_code = 2
+    if agg["harness_errors"]:
+        if exit_code == 0:
+            exit_code = 2
         for h in agg["harness_errors"][:5]:
             print("HARNESS-ERROR world=%s %s" % (h.get("world"), str(h.get("harness_error"))[-800:]), flush=True)
     if agg["worlds"] == 0 and exit_code == 0:
